@@ -12,7 +12,7 @@ FUNCTIONS = ['circle_circle_intersection_area', 'Point.__sub__', 'Point.__neg__'
 BOUNDS = {'quick': 'R model: all centres and radii reals (|coordinate| <= 1e6, 1e-6 <= r <= 1e6), acos uninterpreted with '
                    'sin(acos t)=sqrt(1-t^2); F model (binary64, QF_FP): see the fp_* jobs',
           'thorough': 'same, longer solver budgets'}
-STUBS = ['math.acos: uninterpreted on [-1,1], domain error outside; math.sin(acos t) = sqrt(1-t^2); sqrt: s>=0 and s*s=arg']
+STUBS = ['max/min inside the module as if-then-else terms (same value as the builtins, no fork)', 'math.acos: uninterpreted on [-1,1], domain error outside; math.sin(acos t) = sqrt(1-t^2); sqrt: s>=0 and s*s=arg']
 ASSUMPTIONS = ['R model for symmetry/case structure; binary64 model for totality']
 NOT_DECIDED = ['result within [0, area of the smaller disc] (needs analytic reasoning about acos)',
                'accuracy 1e-5*R^2 against the exact lens area (transcendental + libm error analysis)']
@@ -35,6 +35,8 @@ def setup():
 
 def reset():
     Point._fv_norm = None
+    FR.__dict__.pop('max', None)
+    FR.__dict__.pop('min', None)
     if symx.z3 is not None:
         FR.math = symx.MATH
 
@@ -92,7 +94,8 @@ def body(I, case):
     d2 = dx * dx + dy * dy
     far = d2 > (r1 + r2) * (r1 + r2)
     nested = d2 <= (r1 - r2) * (r1 - r2)
-    I.observe('area', a if not symx.is_sym(a) or True else None)
+    if not _mentions_acos(a):
+        I.observe('area', a)
     which = 'far' if (not symx.is_sym(a) and a == 0) else None
     # case structure (the branch actually taken is known from the shape of the result on this path)
     pi_sq = None
@@ -130,6 +133,7 @@ def body_fp(I, case):
     if I.mode == 'symbolic':
         from fv import symf
         FR.math = symf.FMATH
+        FR.max, FR.min = symx.sym_max, symx.sym_min  # numeric max/min as if-then-else terms (same value, no fork)
         I.assume(norm_contract(d))
         Point._fv_norm = d
         h = case['hint']
